@@ -83,9 +83,13 @@ def parse_rw(line):
     return (re.compile(m.group(1), re.M | re.S), m.group(2), m.group(3) or "1")
 
 
+RW_COUNTS = {}   # where -> {pattern: matches} of the last expansion (read by the back ends for drift detection)
+
+
 def apply_rw(text, rules, where):
     for pat, rep, cnt in rules:
         new, k = pat.subn(rep, text)
+        RW_COUNTS.setdefault(where, {})[pat.pattern] = RW_COUNTS.get(where, {}).get(pat.pattern, 0) + k
         ok = (cnt == "*") or (cnt == "+" and k >= 1) or (cnt.isdigit() and k == int(cnt))
         if not ok:
             raise ExtractError("%s: rewrite /%s/ matched %d times, expected %s" % (where, pat.pattern, k, cnt))
